@@ -236,6 +236,87 @@ def directed_pairs():
                    "target_kind": "method", "family": "pair", "directed_pair": [list(ons), level]}
 
 
+def colour_triples(ctx, only=None):
+    """Family (F): one program (require, snapshot, ensure; sync or coroutine-function conditions) put on a `def`, on an
+    `async def`, and on an `async def` adapter that a foreign decorator built with functools.wraps AROUND a plain `def`
+    (asyncify / run-in-executor helpers). What is decorated is a coroutine function in the last two cases: it gets the
+    async semantics - same evaluations and outcome as the sync rendering, coroutine conditions awaited."""
+    import functools
+    import itertools
+
+    import icontract
+    from vf.progmodel.run import drive
+
+    for async_conds, falsy in itertools.product((False, True), (None, "pre", "post")):
+        views = {}
+        for rendering in ("def", "async def", "async adapter around def"):
+            if only and only != [async_conds, falsy]:
+                continue
+            if async_conds and rendering == "def":
+                continue  # coroutine conditions on a sync callable are rejected (family C)
+            log = []
+
+            def mk(tag, is_post):
+                if async_conds:
+                    async def cond(x):
+                        log.append(tag)
+                        return falsy != tag
+                else:
+                    def cond(x):
+                        log.append(tag)
+                        return falsy != tag
+                return cond
+
+            def body(x):
+                log.append("body")
+                return x
+
+            if rendering == "def":
+                target = body
+            elif rendering == "async def":
+                async def target(x):
+                    return body(x)
+            else:
+                def adapter(fn):
+                    @functools.wraps(fn)
+                    async def w(*a, **k):
+                        return fn(*a, **k)
+                    return w
+                target = adapter(body)
+            f = icontract.ensure(mk("post", True))(target)
+            f = icontract.snapshot(lambda x: log.append("cap") or x, name="x0")(f)
+            f = icontract.require(mk("pre", False))(f)
+            import inspect
+
+            try:
+                r = f(3)
+                if rendering != "def":
+                    if not inspect.iscoroutine(r):
+                        raise TypeError("the contracted coroutine function returned %r instead of a coroutine" % (r,))
+                    r = drive(r)
+                out = ("ret", r)
+            except icontract.ViolationError:
+                out = ("violation",)
+            except BaseException as e:  # noqa
+                out = ("exc", type(e).__name__, str(e)[:100])
+            views[rendering] = (out, list(log), inspect.iscoroutinefunction(f))
+        if not views:
+            continue
+        want_log = {"pre": ["pre"], "post": ["pre", "cap", "body", "post"], None: ["pre", "cap", "body", "post"]}[falsy]
+        want_out = ("ret", 3) if falsy is None else ("violation",)
+        label = "%s conditions, %s" % ("coroutine-function" if async_conds else "sync", "all hold" if falsy is None else falsy + " violated")
+        for rendering, (out, lg, is_coro) in views.items():
+            ctx.case(["colour-triple", async_conds, falsy, rendering], rendering.startswith("async adapter"),
+                     sample={"family": "colour-triple", "rendering": rendering, "conditions": label, "outcome": list(out)})
+            ctx.count("colour-triples")
+            if out != want_out or lg != want_log or is_coro != (rendering != "def"):
+                ctx.fail("colour-triple|%s|%s" % (rendering.replace(" ", "-"), "coro-conds" if async_conds else "sync-conds"),
+                         {"family": "colour-triple", "directed": [async_conds, falsy]},
+                         "%s on %s: expected %r evaluating %r (coroutine function: %s), got %r evaluating %r (coroutine "
+                         "function: %s)" % (label, rendering, want_out, want_log, rendering != "def", out, lg, is_coro))
+                break
+
+
 def signature_pairs(ctx, tier):
     """Family (E): the same signature and call shape (positional-only / keyword-only / variadic parameters, defaults,
     surplus keywords incl. names equal to positional-only parameters) as `def` and as `async def`: the precondition,
@@ -310,11 +391,17 @@ def run(ctx, tier, seed, shard, nshards):
             D.run_one(ctx, case, judge_pair, nontrivial=nontrivial)
         ctx.count("directed_pair_programs", 24)
         signature_pairs(ctx, tier)
+        colour_triples(ctx)
 
 
 def replay(ctx, case):
     warnings.simplefilter("ignore", RuntimeWarning)
     fam = case.get("family", "pair")
+    if fam == "colour-triple":
+        before = ctx.evaluations
+        colour_triples(ctx, only=case["directed"])
+        ctx.evaluations = before + 1
+        return
     if fam == "signature-pair":
         return signature_pairs(ctx, "thorough")
     if fam == "recursion-pair":
